@@ -461,6 +461,7 @@ class MustStore(PathAnalysis):
         super().__init__(prog)
         self.field = field
         self.exits = []
+        self.zero_is_no_move = False
 
     def init_user(self, func):
         return False
@@ -477,6 +478,9 @@ class MustStore(PathAnalysis):
 
     def on_exit(self, func, bid, retval, env, user):
         from .flow import classify_ret
+        # a transfer routine that returns a count of exactly 0 has moved nothing: the position stands
+        if self.zero_is_no_move and retval is not None and retval[0] == "c" and retval[1] == 0:
+            user = True
         self.exits.append((classify_ret(retval, self.fails), user))
 
 
@@ -513,6 +517,7 @@ def rule_posn_siblings(ctx):
             continue
         a = MustStore(prog, ("accrec_t", "posn"))
         a.fails = fail_values(f, prog)
+        a.zero_is_no_move = not (role.endswith(".seek") or fn == "Hseek")
         a.run(f)
         ok_exits = [u for cls, u in a.exits if cls != "fail"]
         if not ok_exits:
@@ -824,4 +829,152 @@ def rule_difference_length_guarded(ctx, files=("hdf/src/cdeflate.c", "hdf/src/cr
             else:
                 ctx.violated("POSLEN", key, f.where(line), "`Hwrite(.., %s - %s, ..)` is not guarded by a comparison of the two terms: when the buffer is empty the length is 0, Hwrite fails, and the element's end-access fails with it" % (A[:40], B[:40]))
     ctx.floor("POSLEN", 2, n, "(coder flushes whose length is a difference)")
+    return n
+
+
+def _scalar_vars(e):
+    """names of variables read by value in e (not as the base of a member, element or pointee access)"""
+    e = strip(e)
+    k = kind(e)
+    if k == "var":
+        return {e[1]}
+    if k in ("mem", "deref", "idx", "addr", "call", "int", "str", "flt", "fn", "sizeof?", None):
+        return set()
+    out = set()
+    for x in e[1:]:
+        if isinstance(x, list):
+            if x and isinstance(x[0], str):
+                out |= _scalar_vars(x)
+            else:
+                for y in x:
+                    if isinstance(y, list):
+                        out |= _scalar_vars(y)
+    return out
+
+
+def rule_fill_extent_persisted(ctx, files=("hdf/src/cdeflate.c", "hdf/src/crle.c", "hdf/src/cskphuff.c", "hdf/src/cnbit.c", "hdf/src/cnone.c", "hdf/src/cszip.c", "hdf/src/hbitio.c", "hdf/src/hchunks.c", "hdf/src/hcomp.c")):
+    """FILLEXT (C05): a coder keeps a cursor into its expansion buffer in the coder record, so that the cursor survives from
+    one Hread to the next.  What the cursor is measured against - in the "buffer used up, refill" test and in the "bytes
+    left" difference `E - cursor` - is then a property of the buffer too and must survive with it: a field of a record, or a
+    constant.  An extent computed from this call's `length` argument describes the request, not the buffer: after a short read
+    a longer one copies bytes that were never expanded, and a shorter one discards bytes whose input is already consumed."""
+    prog = ctx.prog
+    n = 0
+    for f in prog.lib_funcs():
+        if not f.rel.endswith(tuple(files)):
+            continue
+        zeroed, advanced, defs = set(), set(), {}
+        for _b, _i, s, x in f.nodes(True):
+            if x[0] == "asg":
+                lp = path(x[2])
+                lhs = strip(x[2])
+                if kind(lhs) == "mem" and lp:
+                    if x[1] == "=" and is_int(x[3], 0):
+                        zeroed.add(lp)
+                    elif x[1] == "+=" or (x[1] == "=" and kind(strip(x[3])) == "bin" and strip(x[3])[1] == "+" and path(strip(x[3])[2]) == lp):
+                        advanced.add(lp)
+                elif kind(lhs) == "var":
+                    defs.setdefault(lhs[1], []).append(x[3])
+            elif x[0] == "incdec":
+                lp = path(x[3])
+                if lp and kind(strip(x[3])) == "mem":
+                    advanced.add(lp)
+            elif x[0] == "decl":
+                for d in x[1]:
+                    if d[2] is not None:
+                        defs.setdefault(d[0], []).append(d[2])
+        cursors = zeroed & advanced
+        if not cursors:
+            continue
+        percall = set()
+        for p in f.params:
+            pn, pt = (p[0], p[1]) if isinstance(p, (list, tuple)) else (p.get("name"), p.get("type"))
+            if pt and "*" not in pt:
+                percall.add(pn)
+        changed = True
+        while changed:
+            changed = False
+            for v, rhss in defs.items():
+                if v not in percall and any(_scalar_vars(r) & percall for r in rhss):
+                    percall.add(v)
+                    changed = True
+        seen = set()
+        for _b, _i, s, x in f.nodes(True):
+            if x[0] != "bin":
+                continue
+            ext = None
+            if x[1] in ("<", ">", "<=", ">=") :
+                if path(x[2]) in cursors and kind(strip(x[2])) == "mem":
+                    ext, cur = x[3], path(x[2])
+                elif path(x[3]) in cursors and kind(strip(x[3])) == "mem":
+                    ext, cur = x[2], path(x[3])
+            elif x[1] == "-" and path(x[3]) in cursors and kind(strip(x[3])) == "mem":
+                ext, cur = x[2], path(x[3])
+            if ext is None or is_int(ext):
+                continue
+            r = render(strip(ext))
+            key = "FILLEXT:%s:%s:%s" % (f.name, cur.split("->")[-1], r[:30])
+            if key in seen:
+                continue
+            seen.add(key)
+            n += 1
+            bad = sorted(_scalar_vars(ext) & percall)
+            line = s.get("l", f.line)
+            if bad:
+                ctx.violated("FILLEXT", key, f.where(line), "the persisted cursor `%s` is measured against `%s`, which is computed from this call's argument (%s): the extent of the buffer does not survive to the next call with the cursor" % (cur, r[:40], ", ".join(bad)))
+            else:
+                ctx.holds("FILLEXT", key, f.where(line), "`%s` is measured against `%s`, which lives as long as the cursor does" % (cur, r[:40]), nontrivial=True)
+    ctx.floor("FILLEXT", 1, n, "(extents a persisted buffer cursor is measured against)")
+    return n
+
+
+def rule_state_reset_siblings(ctx, files=("hdf/src/crle.c", "hdf/src/cskphuff.c", "hdf/src/cnbit.c", "hdf/src/cdeflate.c", "hdf/src/cszip.c", "hdf/src/hbitio.c")):
+    """STATEHIST (C05): a coder written as a state machine (`switch (p->state)`) re-enters its start state from several places
+    - "run record full", "literal record full".  The start state rebuilds only part of the machine's memory; the rest (the
+    look-behind bytes that decide whether a run begins) is wiped by the transition itself.  All transitions of one routine
+    into the same state wipe the same fields with constants: one that leaves a look-behind byte standing lets the next
+    record see a run one byte early, and the decoded stream gains a byte."""
+    from .facts import int_name
+    prog = ctx.prog
+    n = 0
+    for f in prog.lib_funcs():
+        ast = f.raw.get("ast")
+        if not ast or not f.rel.endswith(tuple(files)):
+            continue
+        switched = set()
+        sites = {}
+
+        def vis(nd, st):
+            if nd[0] == "switch" and nd[1] is not None and kind(strip(nd[1])) == "mem":
+                switched.add(path(nd[1]))
+            if nd[0] == "block":
+                consts = {}
+                for k in nd[1]:
+                    if k[0] != "s":
+                        continue
+                    for x in walk(k[1], True):
+                        if x[0] == "asg" and x[1] == "=" and kind(strip(x[2])) == "mem" and path(x[2]):
+                            r = strip(x[3])
+                            while kind(r) == "asg":
+                                r = strip(r[3])
+                            if kind(r) == "int":
+                                consts[path(x[2])] = (int_name(r) or r[1], k[-3] if isinstance(k[-3], int) else f.line)
+                for p, (c, l) in consts.items():
+                    sites.setdefault((p, c), []).append((l, frozenset(q for q in consts if q != p)))
+            return True
+
+        ast_walk(ast, vis)
+        for (p, c), ss in sorted(sites.items(), key=lambda kv: str(kv[0])):
+            if p not in switched or len(ss) < 2:
+                continue
+            union = frozenset().union(*[s for _l, s in ss])
+            for l, s in ss:
+                n += 1
+                key = "STATEHIST:%s:%s=%s@%d" % (f.name, p.split("->")[-1], c, sorted(x[0] for x in ss).index(l))
+                miss = sorted(union - s)
+                if miss:
+                    ctx.violated("STATEHIST", key, f.where(l), "this transition to %s does not wipe %s, which the routine's other transition(s) to the same state do: the machine restarts with stale memory" % (c, ", ".join(miss)))
+                else:
+                    ctx.holds("STATEHIST", key, f.where(l), "the transition to %s wipes %s like its sibling(s)" % (c, ", ".join(sorted(s)) or "nothing"), nontrivial=True)
+    ctx.floor("STATEHIST", 2, n, "(transitions of a coder state machine into a state entered from several places)")
     return n
